@@ -240,7 +240,13 @@ def run(ctx):
             continue
         seen.add(sig)
         ctx.violation(sig, "%s %s: %s" % (f["cls"], f["hist"][k], why), {"cls": f["cls"], "cfg": f["cfg"], "history": f["hist"][:k + 1]})
+    # floating-point values through the exact half of the hybrid and the replacement solver: feasible, distinct AS VALUES, complete
+    from lib import solver_fpenum
+    solver_fpenum.run(ctx, "C13", ["SolverHybrid", "SolverReplacement"])
 
 
 def replay(ctx, obj):
+    if obj["replay"].get("kind") == "fpenum":
+        from lib import solver_fpenum
+        return solver_fpenum.replay("C13", obj["replay"])
     return SC.replay_history("C13", obj)
